@@ -530,6 +530,12 @@ pub fn ws_block_strings() -> Vec<Value> {
 /// Numeric literals with one foreign character (sign, space, underscore, comma, dot, an invalid digit)
 /// inserted at every position, and long radix literals with an invalid character at the front, in the
 /// middle and at the end of their digits: a scanner that skips, swallows or stops early accepts some.
+/// The numbers the un-mutated bases of `mutated_literals` denote (a scanner that swallows the foreign
+/// character yields one of these).
+pub fn mutated_literal_bases() -> Vec<Value> {
+    many(&["31", "3", "15", "12", "1.5", "1000", "-7", "0.5", "7", "1", "-31", "-3", "-15", "-12", "-1.5", "-1000", "-0.5", "0", "19", "129", "1.59", "159"])
+}
+
 pub fn mutated_literals() -> Vec<Value> {
     let mut out: Vec<String> = Vec::new();
     for base in ["0x1f", "0b11", "0o17", "12", "1.5", "1e3", "-7", "Infinity", ".5"] {
@@ -580,4 +586,23 @@ pub fn nest_objects(depth: usize, leaf: Value) -> Value {
         v = json!({ "k": v });
     }
     v
+}
+
+
+/// Straddle strings: a multi-byte character lying ACROSS a block boundary of B bytes (B = 8 .. 256), for
+/// every character width and every split of its bytes, with ASCII before and after it. Returns the string
+/// and the character index of the straddling character. Block-wise scanners (word-at-a-time counting,
+/// chunked decoding, offset tables) go wrong exactly at that character.
+pub fn straddle_strings() -> Vec<(String, usize)> {
+    let mut out = Vec::new();
+    for b in [8usize, 16, 32, 64, 128, 256] {
+        for (ch, w) in [('é', 2usize), ('水', 3), ('😀', 4)] {
+            for o in 1..w {
+                // the character starts o bytes before the boundary
+                let s = format!("{}{}{}", "a".repeat(b - o), ch, "xyz");
+                out.push((s, b - o));
+            }
+        }
+    }
+    out
 }
